@@ -694,8 +694,14 @@ func NewPeerGroupFromConfigStruct(pconf *PeerGroup) *api.PeerGroup {
 	afiSafis := make([]*api.AfiSafi, 0, len(pconf.AfiSafis))
 	for _, f := range pconf.AfiSafis {
 		if afiSafi := newAfiSafiFromConfigStruct(&f); afiSafi != nil {
-			afiSafi.AddPaths.Config.Receive = pconf.AddPaths.Config.Receive
-			afiSafi.AddPaths.Config.SendMax = uint32(pconf.AddPaths.Config.SendMax)
+			// the group-wide setting applies to the families, as for a
+			// neighbor; it must not wipe what a family configures itself
+			if pconf.AddPaths.Config.Receive {
+				afiSafi.AddPaths.Config.Receive = true
+			}
+			if pconf.AddPaths.Config.SendMax != 0 {
+				afiSafi.AddPaths.Config.SendMax = uint32(pconf.AddPaths.Config.SendMax)
+			}
 			afiSafis = append(afiSafis, afiSafi)
 		}
 	}
